@@ -7,7 +7,9 @@
 namespace c03 {
 using namespace Fastor;
 
-enum Entry { E_EINSUM = 0, E_CONTRACTION = 1, E_EXPLICIT = 2, E_INNER = 3, E_OUTER = 4 };
+enum Entry { E_EINSUM = 0, E_CONTRACTION = 1, E_EXPLICIT = 2, E_INNER = 3, E_OUTER = 4,
+             // the same entry points with unevaluated operands: (tensor, expression), (expression, tensor), (expression, expression)
+             E_EINSUM_TE = 5, E_EINSUM_ET = 6, E_EINSUM_EE = 7, E_CONTRACTION_TE = 8, E_CONTRACTION_ET = 9, E_CONTRACTION_EE = 10 };
 template <int E> struct Ent {};
 
 // ---- two operands ---------------------------------------------------------------------------------------------------
@@ -16,6 +18,13 @@ template <class I, class J, class O, class A, class B> static inline auto call2(
 template <class I, class J, class O, class A, class B> static inline auto call2(Ent<E_EXPLICIT>, const A& a, const B& b) -> decltype(einsum<I, J, O>(a, b)) { return einsum<I, J, O>(a, b); }
 template <class I, class J, class O, class A, class B> static inline auto call2(Ent<E_INNER>, const A& a, const B& b) -> decltype(inner(a, b)) { return inner(a, b); }
 template <class I, class J, class O, class A, class B> static inline auto call2(Ent<E_OUTER>, const A& a, const B& b) -> decltype(outer(a, b)) { return outer(a, b); }
+
+template <class I, class J, class O, class A, class B> static inline auto call2(Ent<E_EINSUM_TE>, const A& a, const B& b) -> decltype(einsum<I, J>(a, b + 0)) { return einsum<I, J>(a, b + 0); }
+template <class I, class J, class O, class A, class B> static inline auto call2(Ent<E_EINSUM_ET>, const A& a, const B& b) -> decltype(einsum<I, J>(a + 0, b)) { return einsum<I, J>(a + 0, b); }
+template <class I, class J, class O, class A, class B> static inline auto call2(Ent<E_EINSUM_EE>, const A& a, const B& b) -> decltype(einsum<I, J>(a + 0, b + 0)) { return einsum<I, J>(a + 0, b + 0); }
+template <class I, class J, class O, class A, class B> static inline auto call2(Ent<E_CONTRACTION_TE>, const A& a, const B& b) -> decltype(contraction<I, J>(a, b + 0)) { return contraction<I, J>(a, b + 0); }
+template <class I, class J, class O, class A, class B> static inline auto call2(Ent<E_CONTRACTION_ET>, const A& a, const B& b) -> decltype(contraction<I, J>(a + 0, b)) { return contraction<I, J>(a + 0, b); }
+template <class I, class J, class O, class A, class B> static inline auto call2(Ent<E_CONTRACTION_EE>, const A& a, const B& b) -> decltype(contraction<I, J>(a + 0, b + 0)) { return contraction<I, J>(a + 0, b + 0); }
 
 template <int E, class I, class J, class O, class A, class B> static FX_NOINLINE void thunk2(const void* const* ops, void* res) {
     const A& a = *static_cast<const A*>(ops[0]); const B& b = *static_cast<const B*>(ops[1]);
